@@ -496,27 +496,45 @@ example : feedText (renderToks strayWrapperEnd)
 theorem stripIE_id (s : Str) (h : hasIEMarker s = false) : stripIE s = s :=
   stripIE_of_no_marker s h
 
-/-- the decidable `hasIEMarker` and the explicit reading agree (one direction: an occurrence of an explicit
-    opener is found) -/
-theorem hasIEMarker_of_opener (a op b : Str) (hop : IsIEOpener op) : hasIEMarker (a ++ op ++ b) = true := by
-  rw [List.append_assoc]
-  induction a with
-  | nil =>
-    obtain ⟨r, hr⟩ := isIEOpener_head op hop
-    have := matchItems_opener op b hop
-    rw [List.nil_append]
-    rw [hr] at this ⊢
-    rw [List.cons_append] at this ⊢
-    rw [hasIEMarker_cons, this]
-    rfl
-  | cons c a ih => rw [List.cons_append, hasIEMarker_cons, ih, Bool.or_true]
+/-- **C02g (two readings of the marker).** The decidable `hasIEMarker` is the explicit reading: an opener
+    `<!--` ws* `[` ws* `if` stands somewhere in the text. -/
+theorem hasIEMarker_reading (s : Str) : hasIEMarker s = true ↔ ∃ a op b, IsIEOpener op ∧ s = a ++ op ++ b :=
+  hasIEMarker_iff s
+
+theorem hasIEMarker_of_opener (a op b : Str) (hop : IsIEOpener op) : hasIEMarker (a ++ op ++ b) = true :=
+  (hasIEMarker_iff _).mpr ⟨a, op, b, hop, rfl⟩
 
 /-- so a text without the marker contains no explicit opener anywhere -/
 theorem no_opener_of_no_marker (s : Str) (h : hasIEMarker s = false) :
     ¬ ∃ a op b, IsIEOpener op ∧ s = a ++ op ++ b := by
-  rintro ⟨a, op, b, hop, rfl⟩
-  rw [hasIEMarker_of_opener a op b hop] at h
+  intro hex
+  rw [(hasIEMarker_iff s).mpr hex] at h
   exact absurd h (by simp)
+
+/-- **C02g (the model's greedy matching is the regular expression's).** The deterministic parts of the three
+    patterns (`IE_CONDITIONAL_PATTERN` up to `if`, the middles of `END_HTML` / `START_HTML`) are item sequences
+    in which every star is followed by a character class disjoint from its own.  For such a sequence the greedy
+    `matchItems` returns `(m, r)` exactly when `m` is matched in the declarative sense (`Matches`: any way of
+    splitting the text over the items) and the text is `m ++ r` — and a text has at most one such prefix, so
+    backtracking has nothing else to find. -/
+theorem patterns_greedy_is_declarative :
+    (∀ ps, ps = ieOpenerPat ∨ ps = endHtmlPat ∨ ps = startHtmlPat →
+      (∀ z m r, matchItems ps z = some (m, r) ↔ Matches ps m ∧ z = m ++ r) ∧
+      (∀ m₁ r₁ m₂ r₂, Matches ps m₁ → Matches ps m₂ → m₁ ++ r₁ = m₂ ++ r₂ → m₁ = m₂ ∧ r₁ = r₂)) := by
+  intro ps h
+  have hd : Det ps := by
+    rcases h with rfl | rfl | rfl
+    · exact det_ieOpenerPat
+    · exact det_endHtmlPat
+    · exact det_startHtmlPat
+  exact ⟨fun z m r => matchItems_iff ps hd z m r, fun m₁ r₁ m₂ r₂ h₁ h₂ he => matches_unique ps hd m₁ r₁ m₂ r₂ h₁ h₂ he⟩
+
+/-- **C02g (one match, explicitly).** `IE_CONDITIONAL_PATTERN.match(z)` gives `m` iff `m` is an opener, a body
+    without line break, and `-->`, and the rest of that line has no further `-->` (greedy `.*`, `.` ≠ `\n`). -/
+theorem ieMatch_reading (z m : Str) : ieMatchAt z = some m ↔
+    ∃ op body rest, IsIEOpener op ∧ '\n' ∉ body ∧ m = op ++ body ++ arrow ∧ z = m ++ rest ∧
+      hasArrow (rest.takeWhile (· ≠ '\n')) = false :=
+  ieMatchAt_iff z m
 
 /-- **C02g (serialiser output, tight form).** The rendering of a token list in the serialiser's image contains
     the marker exactly when the rendering of one of its tokens does: no opener reaches across a token boundary. -/
@@ -562,6 +580,27 @@ theorem stripIE_removes (pre op body post : Str) (hop : IsIEOpener op) (hbody : 
   rw [ieFindAll_single pre op body post hop hbody hpre hpost hline]
   simp only [List.isEmpty_cons, Bool.false_eq_true, if_false, List.foldl_cons, List.foldl_nil]
   rw [removeAll_single pre op body post hop hpre hpost]
+
+/-- **C02g (a conditional comment token is dropped).** A token list in the serialiser's image with one comment
+    token whose body starts with ws* `[` ws* `if` (one line; no further `-->` on the rest of that line in what
+    follows; the marker nowhere else; the html-tag rule not firing): `feed` builds the document of the list
+    WITHOUT that token — where `feed` without the stripping step keeps the comment as a text block. -/
+theorem parseText_drops_conditional (ts1 ts2 : List Token) (c : Str) (hc : condStart c = true) (hnl : '\n' ∉ c)
+    (h1 : hasIEMarker (renderToks ts1) = false) (h2 : hasIEMarker (renderToks ts2) = false)
+    (hline : hasArrow ((renderToks ts2).takeWhile (· ≠ '\n')) = false)
+    (hhtml : occurs endHtmlPat (renderToks (ts1 ++ ts2)) = false ∨ occurs startHtmlPat (renderToks (ts1 ++ ts2)) = true)
+    (hok : ListOK (ts1 ++ ts2)) (hw : NoWrapper (ts1 ++ ts2)) :
+    parseText (renderToks (ts1 ++ .comment c :: ts2))
+      = some (.doc (Spec.build (ts1 ++ ts2)).1 (Spec.build (ts1 ++ ts2)).2) := by
+  unfold parseText
+  rw [stripIE_comment_token ts1 ts2 c hc hnl h1 h2 hline]
+  have : addHtmlIfMissing (renderToks (ts1 ++ ts2)) = renderToks (ts1 ++ ts2) := by
+    unfold addHtmlIfMissing
+    rcases hhtml with h | h <;> simp [h]
+  rw [this, feedText_eq_spec _ hok hw]
+
+/-- **C02g / C03 (size).** Stripping only removes text, except for the six characters of `<html>`. -/
+theorem stripIE_length_le (s : Str) : (stripIE s).length ≤ s.length + 6 := stripIE_length s
 
 /-- the html-tag rule spelled out: an `</html>` end tag (any case, white space allowed inside) without an
     `<html>` start tag gets `<html>` inserted by `addStartTag` — directly after a leading doctype as
@@ -702,6 +741,14 @@ theorem condComment_ok : ListOK condComment := by
   · simp [condComment, NoAdjData, isData]
 
 example : stripIE (renderToks condComment) = "<a ></a>".toList := by decide
+
+/-- …and `parseText_drops_conditional` says what comes out instead: the document of the list without the token -/
+example : parseText (renderToks condComment)
+    = some (.doc (Spec.build [.start "a".toList [], .end_ "a".toList]).1 (Spec.build [.start "a".toList [], .end_ "a".toList]).2) :=
+  parseText_drops_conditional [.start "a".toList []] [.end_ "a".toList] "[if IE]><b>x</b><![endif]".toList
+    (by decide) (by decide) (by decide) (by decide) (by decide) (Or.inl (by decide))
+    ⟨⟨tagOK_a, by decide, fun x hx => by simp at hx⟩, trivial, tagOK_a, trivial, trivial⟩
+    (by intro t ht; simp at ht; rcases ht with rfl | rfl <;> decide)
 
 /-- number of children of the root element a parse gave -/
 def rootKids : FeedResult → Option Nat
